@@ -98,6 +98,8 @@ def run(ctx):
                  and (bl['term'].get('adt') or '').endswith('storage::StorageImpl')})
     ctx.extra['engine_switches'] = sw
     ctx.note(f'C05-R2: functions matching on StorageImpl: {sw}')
+    from rules.c03 import commit_publishes_rule
+    commit_publishes_rule(ctx, prog, 'C05-R4')
 
 
 def _feeds_only_assert(g, bb):
